@@ -67,11 +67,16 @@ def gen_sig(rng, first):
     return ", ".join(parts), names + kw
 
 
+# module-level values for --input-eval and the Literal their evaluation must yield (every member, in order, repeats included)
+EVALS = [("('r', 'w')", "Literal['r', 'w']"), ("(False, True, 0, 1, 2)", "Literal[False, True, 0, 1, 2]"), ("('a', 'a', 'b')", "Literal['a', 'a', 'b']"),
+         ("range(3)", "Literal[0, 1, 2]"), ("[1, 1.0, 2]", "Literal[1, 1.0, 2]"), ("('w', 'r')", "Literal['w', 'r']")]
+
+
 def gen_module(rng, with_eval_source=False):
     """-> source, list of dotted paths to attributes, list of dotted paths to parameters"""
     items, attr_paths, param_paths = ["from typing import List, Literal, Optional, Union", ""], [], []
     if with_eval_source:
-        items.append("CHOICES = ('r', 'w')")
+        items.append("CHOICES = %s" % (with_eval_source if isinstance(with_eval_source, str) else "('r', 'w')"))
         items.append("")
     kinds = [rng.choice(["class", "func"]) for _ in range(rng.randint(2, 4))]
     cls, fns = list(CLS), list(FNS)
@@ -138,7 +143,10 @@ def run_case(c):
     try:
         inp, outp = os.path.join(d, "input_mod.py"), os.path.join(d, "output_mod.py")
         open(inp, "w").write(c["input_src"])
-        open(outp, "w").write(c["output_src"])
+        if c.get("same_file"):
+            outp = inp
+        else:
+            open(outp, "w").write(c["output_src"])
         before_in = open(inp, "rb").read()
         before_tree = ast.parse(c["output_src"])
         # replacement node as the implementation resolves it (input side)
@@ -177,10 +185,10 @@ def run_case(c):
             res["raised"] = type(e).__name__ + ": " + str(e)[:80]
             if open(outp).read() != c["output_src"]:
                 res["problems"].append(("output-changed-although-failed", {}))
-            if open(inp, "rb").read() != before_in:
+            if not c.get("same_file") and open(inp, "rb").read() != before_in:
                 res["problems"].append(("input-file-modified", {}))
             return res
-        if open(inp, "rb").read() != before_in:
+        if not c.get("same_file") and open(inp, "rb").read() != before_in:
             res["problems"].append(("input-file-modified", {}))
         after_src = open(outp).read()
         try:
@@ -280,7 +288,7 @@ def diff_property(c, before, after, repl):
     if c["eval"] and la is not None:
         kind, node, fn = la
         got_ann = ast.unparse(node.annotation) if node.annotation is not None else ""
-        want = "Literal['r', 'w']"
+        want = c.get("eval_want", "Literal['r', 'w']")
         if c["wrap"]:
             want = ast.unparse(ast.parse(WRAP.format(output_param=want)).body[0].value)
         if got_ann.replace('"', "'") != want:
@@ -290,8 +298,13 @@ def diff_property(c, before, after, repl):
 
 def gen_case(rng):
     ev = rng.random() < 0.2
-    isrc, iattrs, iparams = gen_module(rng, with_eval_source=ev)
+    ev_src, ev_want = rng.choice(EVALS)
+    isrc, iattrs, iparams = gen_module(rng, with_eval_source=(ev_src if ev else False))
     osrc, oattrs, oparams = gen_module(rng)
+    same_file = (not ev) and rng.random() < 0.15 and len(iattrs) + len(iparams) >= 2
+    if same_file:
+        # one module is both the source and the destination (a property copied inside one file)
+        osrc, oattrs, oparams = isrc, list(iattrs), list(iparams)
     if ev:
         ip, in_kind = "CHOICES", "eval"
     else:
@@ -302,10 +315,10 @@ def gen_case(rng):
     in_name = ip.split(".")[-1]
     scope = lambda p: p.rsplit(".", 1)[0]
     taken = lambda p: any(q != p and scope(q) == scope(p) and q.split(".")[-1] == in_name for _k, q in pool)
-    ok = [(k, p) for k, p in pool if ev or not taken(p)]
+    ok = [(k, p) for k, p in pool if (ev or not taken(p)) and not (same_file and p == ip)]
     out_kind, op = rng.choice(ok or pool)
     return {"input_src": isrc, "output_src": osrc, "input_param": ip, "output_param": op, "in_kind": in_kind, "out_kind": out_kind,
-            "wrap": rng.random() < 0.4, "eval": ev}
+            "wrap": (rng.random() < 0.7) if same_file else (rng.random() < 0.4), "eval": ev, "eval_want": ev_want, "same_file": same_file}
 
 
 def worker(batch):
